@@ -851,7 +851,9 @@ theorem classify_some (heap : List TRef) (id : Nat) (t : TRef) (h : heap[id]? = 
       if t.nbytes > sizeThreshold then Tag.ext else (match t with | .ext _ _ _ _ => Tag.mem | .mem _ _ => Tag.keep) := by
   unfold classify
   simp only [h]
-  split <;> rfl
+  split
+  · rfl
+  · cases t <;> rfl
 
 theorem extB_writable (dest : String) (s : St) (tnames : List String) :
     ∀ {cv bs}, All2 (InitOK dest s.fs s.heap) cv bs → ∀ x ∈ extB s.heap tnames cv bs, Writable dest s x.2.1 x.2.2
@@ -976,5 +978,140 @@ theorem merge_ok (dest : String) (fs0 : FS) (heap0 : List TRef) (tnames : List S
           rw [hm']
           refine .cons ?_ (merge_ok dest fs0 heap0 tnames sF hpre ht es ms' he hrest)
           exact ⟨m, rfl, Or.inl ⟨true, hx⟩⟩
+
+theorem unload_ok (dest : String) (verbose : Bool) (tnames : List String) (s : St) (bs : List Bytes)
+    (hk : s.k = none) (hinit : All2 (InitOK dest s.fs s.heap) s.cv bs) :
+    ∃ s' img, unload tnames dest verbose s = (.ok (), s') ∧ s'.k = s.k ∧ s'.wopened = s.wopened ++ [dest] ∧
+      s'.fs = FS.set s.fs dest (.data img) ∧ All2 (FinalOK dest s') s'.cv bs := by
+  unfold unload
+  simp only [bind_apply, get_apply]
+  rw [← memB_inputs dest s.fs s.heap hinit]
+  obtain ⟨memIds, s1, e1, fr1, fs1, hp1, hmem⟩ := memLoad_ok (memB s.heap s.cv bs) s hk (memB_ext dest s.fs s.heap hinit)
+  rw [e1]
+  simp only []
+  rw [← extB_inputs dest s.fs s.heap tnames hinit]
+  obtain ⟨extIds, s3, img, e3, k3, cv3, hp3, wo3, fs3, hext⟩ := convertToExternal_ok dest verbose
+    (extB s.heap tnames s.cv bs) s1 (by rw [fr1.k]; exact hk) (by
+      intro x hx
+      obtain ⟨t, g1, g2, g3⟩ := extB_writable dest s tnames hinit x hx
+      exact ⟨t, getElem?_prefix hp1 g1, by rw [fs1]; exact g2, g3⟩)
+  rw [e3]
+  simp only [modify_apply]
+  refine ⟨_, img, rfl, ?_, ?_, ?_, ?_⟩
+  · show s3.k = s.k; rw [k3, fr1.k]
+  · show s3.wopened = _; rw [wo3, fr1.wo]
+  · show s3.fs = _; rw [fs3, fs1]
+  · show All2 (FinalOK dest { s3 with cv := mergeCv s.heap s.cv extIds memIds }) (mergeCv s.heap s.cv extIds memIds) bs
+    apply merge_ok dest s.fs s.heap tnames _ (List.IsPrefix.trans hp1 hp3) hinit extIds memIds
+    · exact hext.imp (fun x nid h => h)
+    · exact hmem.imp (fun x nid h => getElem?_prefix hp3 h)
+
+/-! ## serialize + load -/
+
+def zip3 : List (String × Bool) → List Bytes → List (String × Bool × Bytes)
+  | (n, sub) :: sig, b :: bs => (n, sub, b) :: zip3 sig bs
+  | _, _ => []
+
+/-- Reading one proto entry back (the body of `load`). -/
+def loadEntry (fs : FS) (x : String × Bool × PInit) : Option (String × Bool × Bytes) :=
+  match x.2.2 with
+  | .inline b => some (x.1, x.2.1, b)
+  | .external f off len => (fs.read f off len).map fun b => (x.1, x.2.1, b)
+
+theorem serialize_load (dest : String) (sF : St) :
+    ∀ {cv bs}, All2 (FinalOK dest sF) cv bs → ∀ (sig : List (String × Bool)), sig.length = cv.length →
+      ∃ p, serializeAux sF.heap sig cv = .ok p ∧
+        ∀ fs', (∀ o len, FS.read fs' dest o len = FS.read sF.fs dest o len) →
+          p.mapM (loadEntry fs') = some (zip3 sig bs)
+  | _, _, .nil => by
+    intro sig hl
+    cases sig with
+    | nil => exact ⟨[], rfl, fun _ _ => rfl⟩
+    | cons x r => simp at hl
+  | _, _, .cons (a := c) (b := b) hr ht => by
+    intro sig hl
+    cases sig with
+    | nil => simp at hl
+    | cons x sig' =>
+      obtain ⟨n, sub⟩ := x
+      obtain ⟨p, hp1, hp2⟩ := serialize_load dest sF ht sig' (by simpa using hl)
+      obtain ⟨id, rfl, hobj⟩ := hr
+      rcases hobj with ⟨np, hm⟩ | ⟨o, he, hrd⟩
+      · refine ⟨(n, sub, PInit.inline b) :: p, ?_, ?_⟩
+        · simp only [serializeAux, hp1, hm]
+        · intro fs' hread
+          simp only [List.mapM_cons, loadEntry, hp2 fs' hread, zip3]
+          rfl
+      · refine ⟨(n, sub, PInit.external dest o b.length) :: p, ?_, ?_⟩
+        · simp only [serializeAux, hp1, he]
+        · intro fs' hread
+          simp only [List.mapM_cons, loadEntry, hread, hrd, hp2 fs' hread, zip3]
+          rfl
+
+theorem guardHits_nil (deep : Bool) : ∀ (sig : List (String × Bool)) (cv : List (Option Nat)),
+    (∀ c ∈ cv, c ≠ none) → guardHits deep sig cv = []
+  | [], _, _ => by simp [guardHits]
+  | _ :: _, [], _ => by simp [guardHits]
+  | x :: sig, c :: cv, h => by
+    have ih := guardHits_nil deep sig cv (fun d hd => h d (List.mem_cons_of_mem _ hd))
+    have hc : c ≠ none := h c List.mem_cons_self
+    unfold guardHits at ih ⊢
+    simp only [List.zip_cons_cons, List.filter_cons]
+    cases c with
+    | none => exact absurd rfl hc
+    | some id => simpa using ih
+
+theorem all2_mem_left {R : α → β → Prop} : ∀ {l1 l2}, All2 R l1 l2 → ∀ a ∈ l1, ∃ b, R a b
+  | _, _, .nil, a, h => by simp at h
+  | _, _, .cons hr ht, a, h => by
+    simp only [List.mem_cons] at h
+    rcases h with rfl | h
+    · exact ⟨_, hr⟩
+    · exact all2_mem_left ht a h
+
+theorem all2_length {R : α → β → Prop} : ∀ {l1 : List α} {l2 : List β}, All2 R l1 l2 → l1.length = l2.length
+  | _, _, .nil => rfl
+  | _, _, .cons _ ht => by simp [all2_length ht]
+
+theorem joinPath_ne (dir name : String) : joinPath dir (name ++ ".data") ≠ joinPath dir name := by
+  intro h
+  have := congrArg String.length h
+  unfold joinPath at this
+  split at this <;> simp [String.length_append] at this
+
+/-- **The whole save, fault-free, then `load`.** -/
+theorem save_load_ok (deep : Bool) (sig : List (String × Bool)) (tnames : List String) (dir name : String) (verbose : Bool)
+    (s : St) (bs : List Bytes) (hk : s.k = none) (hsig : sig.length = s.cv.length)
+    (hinit : All2 (InitOK (joinPath dir (name ++ ".data")) s.fs s.heap) s.cv bs) :
+    ∃ s', save deep sig tnames dir name verbose s = (.ok (), s') ∧ load s'.fs dir name = some (zip3 sig bs) := by
+  have hnone : ∀ c ∈ s.cv, c ≠ none := by
+    intro c hc
+    obtain ⟨b, id, t, rfl, _, _⟩ := all2_mem_left hinit c hc
+    simp
+  unfold save
+  simp only [bind_apply, get_apply, guardHits_nil deep sig s.cv hnone, List.isEmpty_nil, Bool.not_true, Bool.false_eq_true,
+    if_false]
+  unfold irSave tryFinally
+  simp only [bind_apply, get_apply]
+  obtain ⟨s4, img, e4, k4, wo4, fs4, hfin⟩ := unload_ok (joinPath dir (name ++ ".data")) verbose tnames s bs hk hinit
+  rw [e4]
+  simp only []
+  have hlen : sig.length = s4.cv.length := by
+    rw [all2_length hfin, ← all2_length hinit]; exact hsig
+  have hne := joinPath_ne dir name
+  obtain ⟨p, hp1, hp2⟩ := serialize_load (joinPath dir (name ++ ".data")) s4 hfin sig hlen
+  simp only [serialize, hp1]
+  unfold fsOpenW withClose fsWriteProto
+  simp only [bind_apply, tick_ok _ s4 (by rw [k4]; exact hk), modify_apply]
+  rw [needHandle_ok (joinPath dir name) _ (by simp)]
+  simp only []
+  rw [tick_ok _ _ (by show s4.k = none; rw [k4]; exact hk)]
+  simp only [modify_apply]
+  rw [tick_ok _ _ (by show s4.k = none; rw [k4]; exact hk)]
+  refine ⟨_, rfl, ?_⟩
+  simp only [set_set]
+  unfold load
+  simp only [get?_set_eq]
+  exact hp2 _ (fun o len => read_set_ne _ _ _ _ _ _ hne)
 
 end OV.C20
